@@ -17,4 +17,5 @@ CONSTANTS
   MaxEv = 2
 VIEW View
 ACTION_CONSTRAINT Export
+INVARIANTS CodecMatchesSpec CodecAdditive KeyCodec RowHostsAdmissible RowSane
 CHECK_DEADLOCK FALSE
